@@ -148,6 +148,41 @@ def run(ctx):
         rd.expect(ok, 'count:%s' % fn, cnt[0].loc if cnt else g.where(), '%s: count_bits / deps_mask must be updated only when the destination bit was not yet set, together with setting it' % fn,
                   note='%s: bit unset -> set bit, deps_mask |=, count_bits++' % fn)
     check_mask_domains(ctx)
+    check_recycle_wipe(ctx, u)
+
+
+def check_recycle_wipe(ctx, u):
+    """remote_deps objects are recycled through a free list; remote_deps_free is the only place where the destination sets
+    (rank_bits, count_bits) of the outputs are wiped.  The used outputs of a task need not be contiguous, so the wipe must look
+    at every output: its loop over max_dep_count may skip an empty output but must not stop at one - a stale destination set
+    is added to the next broadcast that reuses the object (extra, lost and duplicated activations)."""
+    rf = ctx.rule('R13.f', 'remote_deps_free wipes the destination set of every output before recycling: the loop over the outputs has no early exit', floor=2)
+    f = u.func('remote_deps_free'); ctx.functions_analysed.add(f.name)
+    found = 0
+    for (src, hdr) in f.back_edges():
+        c = f.cond(hdr)
+        if c is None or 'max_dep_count' not in c.s:
+            continue
+        body = {hdr, src}; st = [src]
+        while st:
+            x = st.pop()
+            if x == hdr:
+                continue
+            for p_, _ in f.preds()[x]:
+                if p_ not in body:
+                    body.add(p_); st.append(p_)
+        wipes = [e for b in body for e in f.block_events(b) if e.kind == 'store' and e.lhs.k == 'mem' and e.lhs.n == 'count_bits' and e.rhs is not None and e.rhs.cv == 0]
+        if not wipes:
+            continue
+        found += 1
+        rb = [e for b in body for e in f.block_events(b) if e.kind == 'store' and e.lhs.k == 'idx' and 'rank_bits' in e.lhs.s and e.rhs is not None and e.rhs.cv == 0]
+        rf.expect(bool(rb), 'wipe:rank_bits', wipes[0].loc, 'the wipe must clear the rank_bits words of the output as well as its count', note='recycle: rank_bits words and count_bits cleared per output')
+        exits = [(b, s_) for b in body if b != hdr for s_, lab in f.succs(b) if s_ not in body]
+        rf.expect(not exits, 'wipe:all-outputs', f.loc(f.blocks[hdr]['cond']),
+                  'the loop over the outputs is left early (%d exit(s) from its body): outputs after an empty one keep their destination sets when the object is recycled' % len(exits),
+                  note='recycle: every output visited (no exit from the loop body)')
+    if not found:
+        raise AnalysisBroken('remote_deps_free: loop over max_dep_count that clears count_bits not found')
 
 
 # ------------------------------------------------------------------------------------------------
